@@ -25,7 +25,7 @@ FORBIDDEN_TOKENS = r"sorry|admit|^axiom |native_decide|bv_decide|implemented_by|
 
 TRUSTED_BASE = [
     "Lean 4.33.0 kernel; axioms allowed in property theorems: propext, Classical.choice, Quot.sound (audited by #print axioms on every run)",
-    "the statements in lean/DoviModel/Props/*.lean; the hand-written model lean/DoviModel/Model/*.lean is modelled, not verified: it is tied to /repo on every run by (a) the correspondence check and (b), for the data-driven syntax tables and the decision rules (validate functions, profile/MEL classification, sort keys, conversion-mode table, L1 clamp, ST 2084 and T.35 constants), the translators tools/gen_source_layouts.py, tools/gen_source_rules.py and tools/gen_source_cstructs.py (repr(C) structs and From impls of the C API) + the tie theorems of Props/SourceTie.lean and Props/C04,C10,C12,C15,C19,C20 (source_*)",
+    "the statements in lean/DoviModel/Props/*.lean; the hand-written model lean/DoviModel/Model/*.lean is modelled, not verified: it is tied to /repo on every run by (a) the correspondence check and (b), for the data-driven syntax tables and the decision rules (validate functions, profile/MEL classification, sort keys, conversion-mode table, L1 clamp, ST 2084 and T.35 constants), the translators tools/gen_source_layouts.py, tools/gen_source_rules.py and tools/gen_source_cstructs.py (repr(C) structs and From impls of the C API) and the source pins tools/check_source_pins.py (normalised text of the functions the translators read only in part or not at all) + the tie theorems of Props/SourceTie.lean and Props/C04,C10,C12,C15,C19,C20 (source_*)",
     "independent statements of the intended behaviour used as direct oracles: vlib/specgen.py (RPU syntax, DESIGN.md Appendix B), vlib/hevcref.py (stream commands), vlib/xmlspec.py (CM XML formulas, exact rationals), the 60-digit ST 2084 evaluation in vlib/c19.py",
     "the correspondence check: harness/libcase (thin Rust executor around the real functions), lean/Driver (printer), vlib/*.py (generation, diff)",
     "modelled, not verified: third-party crates as pinned by /repo/Cargo.lock (bitstream-io, bitvec_helpers, crc, hevc_parser, serde_json, roxmltree, clap, hdr10plus, madvr_parse), the OS, IEEE-754/libm",
@@ -429,7 +429,7 @@ class Ctx:
         # theorems of Props/SourceTie.lean (imported by Props/C01-C03) prove them identical to the model's tables;
         # gen_source_rules.py does the same for the decision rules (Gen/SourceRules.lean)
         # gen_source_cstructs.py does the same for the repr(C) structs and From impls of the C API (Gen/SourceCStructs.lean)
-        for tool in ("gen_source_layouts.py", "gen_source_rules.py", "gen_source_cstructs.py"):
+        for tool in ("gen_source_layouts.py", "gen_source_rules.py", "gen_source_cstructs.py", "check_source_pins.py"):
             g = sh([sys.executable, os.path.join(VERIF, "tools", tool), "/repo"], cwd=VERIF, check=False, timeout=120)
             if g.returncode != 0:
                 self.proof_failures.append({"what": "source translator %s: a Rust source file no longer has the shape the extraction expects "
